@@ -5,6 +5,7 @@ MC : HttpReader.tla with PeerClose at every point, asynchronous responses (Respo
      once the connection is closed, only the last message can be unfinished), PrefixOfSent (what was
      delivered is a prefix of what the peer sent, all of it when finished), Final; liveness
      ShutdownCloses (under weak fairness of Shutdown every connection ends up closed).
+     The application may also answer early (from headers_received / its first data_received): EarlyEnd.
 S2C: (a) every TLC wire is cut at EVERY byte offset (0..n) and the peer closes there: real HTTPServer
      with the recording delegate, the request callback and a tornado.web.Application (plain and
      @stream_request_body handlers) wrapped in a recording delegate;
@@ -13,6 +14,9 @@ S2C: (a) every TLC wire is cut at EVERY byte offset (0..n) and the peer closes t
      (then arrival continues)" (GenT_HttpReader); every root-to-event path is run on the real server
      (recording delegate answering on demand, and a web.Application whose handler awaits a harness
      future); close_all_connections() must complete within the settle.
+     (c) early-answering applications (raw delegate answering in headers_received / first data_received,
+     @stream_request_body handler finishing in prepare() / data_received) on the TLC wires, whole request
+     in one segment, one cut and random segmentations; each run is validated by TLC.
 C2S: random request streams x random segmentation x random placement of peer close / answer / body
      timeout / shutdown, recorded from the real server and validated by TLC (Trace_HttpReader).
 
@@ -29,7 +33,7 @@ from harness import httpr_gen as G
 
 MC_Q = {"Modes": '{"server"}', "Heads": "{FALSE}", "RLs": "{1, 3}", "HOSTs": "{1, 4}", "FRs": "{1, 2, 3, 5}", "FR2s": "{1, 5}",
         "XHs": "{1}", "BODYs": "{1, 2, 3, 4, 9}", "TAILs": "{1, 2}", "Dev": 1, "Sizes": "{1, 2, 5}",
-        "Timeouts": "{TRUE}", "Shuts": "{TRUE}"}
+        "Timeouts": "{TRUE}", "Shuts": "{TRUE}", "Responds": '{"sync", "async", "early", "earlydata"}'}
 GEN_Q = {"RLs": "{1, 2, 3, 5}", "HOSTs": "{1, 2, 4}", "FRs": "{1, 2, 3, 5, 9, 13}", "FR2s": "{1, 3, 5}", "XHs": "{1, 3}",
          "BLANKs": "{1}", "BODYs": "{1, 2, 3, 4, 6, 9, 11, 18}", "TAILs": "{1, 2}", "Dev": 1}
 GEN_T = {"RLs": "1..20", "HOSTs": "1..14", "FRs": "1..27", "FR2s": "1..7", "XHs": "1..14", "BLANKs": "{1, 2}",
@@ -97,6 +101,32 @@ def record_random(args):
     return D.record_server_trace(tid, cfg, w, pcs, script)
 
 
+def record_early(args):
+    """The application answers before the request has been read (from headers_received / from its first
+    data_received): raw delegate and @stream_request_body web handler, whole request in one segment and
+    cut schedules.  The delegate must still get exactly one of finish / close."""
+    tid, wire, mode, app, pieces = args
+    cfg = dict(H.BASE_CFG, respond=mode)
+    t = D.record_server_trace(tid, cfg, bytes(wire), pieces, [(len(pieces) - 1, "eof")], mode=app)
+    t["app"] = app
+    return t
+
+
+def early_jobs(cases, rng, stride):
+    jobs = []
+    for c in cases[::stride]:
+        w = c["wire"]
+        n = len(w)
+        if n < 2:
+            continue
+        for mode in ("early", "earlydata"):
+            for app in ("delegate", "app-stream-" + mode):
+                k = rng.randrange(1, n)
+                for pieces in ([n], [k, n - k], G.segmentation(rng, n)):
+                    jobs.append((len(jobs) + 1, w, mode, app, pieces))
+    return jobs
+
+
 def run(ctx):
     # 1. model checking
     H.vacuity(ctx, dict(MC_Q, RLs="{1}", HOSTs="{1}", FRs="{2}", FR2s="{1}", BODYs="{2}", TAILs="{2}", Dev=0, Sizes="{47}"),
@@ -120,7 +150,8 @@ def run(ctx):
     for ov in ({"TResponds": '{"async"}', "TTimeouts": "{TRUE}", "TShuts": "{TRUE}"},
                {"TResponds": '{"sync"}', "TTimeouts": "{TRUE}", "TShuts": "{TRUE}"}):
         sts = ctx.gen_states(H.sdir(ctx), "GenT_HttpReader", "GenT_HttpReader.cfg",
-                             overrides=dict(TREE_Q if ctx.quick else TREE_T, **ov), variables=("cfg", "wire", "tree", "done"))
+                             overrides=dict(TREE_Q if ctx.quick else TREE_T, **ov), variables=("cfg", "wire", "tree", "done"),
+                             timeout=ctx.pick(900, 3000))
         trees += [s for s in sts if s["done"]]
     titems = []
     for t in trees:
@@ -132,6 +163,11 @@ def run(ctx):
     ctx.cov["connection_runs"] = runs + truns
     ctx.cov["evaluations"] += runs + truns - len(items) - len(titems)
     ctx.cov["exhaustive"] = True
+    # 2c. applications that answer early (validated by TLC: the expected projection depends on the schedule)
+    ej = early_jobs(cases, random.Random(ctx.seed + 5), ctx.pick(6, 1))
+    etraces = framework.pool_map(record_early, ej)
+    H.validate(ctx, etraces, H.classify_server, label="early")
+    ctx.cov["early_answer_runs"] = len(etraces)
     # 3. code -> spec
     n = ctx.pick(200, 20000)
     traces = framework.pool_map(record_random, [(i + 1, ctx.seed * 1000003 + 77 + i) for i in range(n)])
